@@ -50,4 +50,7 @@ StepC03 == [][Step_C03(R0)]_vars
 StepC06 == [][Step_C06(R0)]_vars
 ProvRankDef == [p \in Providers |-> CASE p = "p1" -> 1 [] p = "p2" -> 2 [] p = "p3" -> 3 [] OTHER -> 9]
 ExportNode == PrintT(<<"NODE", ToJson(hist)>>)
+OkActs == {a \in ActionSet : LET r == Apply(st, a) IN
+              r.ok /\ r.S # st /\ (a.act = "NextBlock" => st.height + a.gap <= MaxHeight)}
+ExportNodeEdges == PrintT(<<"NODE", ToJson(hist), "OK", ToJson(SetToSeq(OkActs))>>)
 =============================================================================
